@@ -4,7 +4,7 @@
 // the cmd module can run it too (as layer.TestSuiteLayer is used by cmd/containerd-stargz-grpc/db/reader_test.go).
 // The driver decides nothing: it builds layers from the model's file table with the real estargz.Build, serves them
 // through the real metadata store / reader.Reader / node layer, executes the steps it is given and records what the
-// implementation returned (bytes as numbers: byte i of model file f is 16*f+i+1, so results project to positions).
+// implementation returned (bytes as numbers: byte i of model file f is (16*f+i)%251+1, so results project to positions).
 package layer
 
 import (
@@ -121,7 +121,7 @@ func c02Render(p []string, style string, dir bool) string {
 func c02Content(f, size int) []byte {
 	b := make([]byte, size)
 	for i := range b {
-		b[i] = byte(16*f + i + 1)
+		b[i] = byte((16*f+i)%251 + 1)
 	}
 	return b
 }
@@ -411,6 +411,8 @@ type c02Inst struct {
 	inos    map[uint64]int
 	nodes   map[string]*node // nodes already looked up, by path (as the kernel keeps inodes): memoised listings survive
 	nmu     sync.Mutex
+	maxID   uint32
+	full    map[string][3]int // every (node id, off, size) key that could be produced for this layer; built on first miss
 	cleanup []func()
 }
 
@@ -468,20 +470,14 @@ func c02Serve(b *c02Built, store metadata.Store) (*c02Inst, error) {
 			maxID = id
 		}
 	}
-	rev := map[uint32]int{}
-	for f, id := range in.ids {
-		rev[id] = f
+	// the cache keys of the chunks (and whole files) of this layer under THIS instance's node ids (the memory store
+	// numbers nodes in map order, so ids differ between instances); any other key is resolved by fullKeys on demand
+	in.maxID = maxID
+	for _, c := range b.layout.Chunks {
+		in.keys[c02GenID(in.ids[c[0]], int64(c[1]), int64(c[2]))] = [3]int{c[0], c[1], c[2]}
 	}
-	for id := uint32(0); id <= maxID+3; id++ {
-		f, ok := rev[id]
-		if !ok {
-			f = -int(id) - 1 // a node that is not a regular file of the model
-		}
-		for off := 0; off <= b.maxSize+1; off++ {
-			for size := 0; size <= b.maxSize+1; size++ {
-				in.keys[c02GenID(id, int64(off), int64(size))] = [3]int{f, off, size}
-			}
-		}
+	for _, fs := range b.layout.Sizes {
+		in.keys[c02GenID(in.ids[fs[0]], 0, int64(fs[1]))] = [3]int{fs[0], 0, fs[1]}
 	}
 	return in, nil
 }
@@ -526,6 +522,9 @@ func (in *c02Inst) snapshot() [][]any {
 		r.Close()
 		id, ok := in.keys[k]
 		if !ok {
+			id, ok = in.fullKeys()[k]
+		}
+		if !ok {
 			id = [3]int{-1000, 0, 0}
 		}
 		res = append(res, []any{id[0], id[1], id[2], c02Ints(buf[:n])})
@@ -539,6 +538,47 @@ func (in *c02Inst) snapshot() [][]any {
 		return false
 	})
 	return res
+}
+
+// fullKeys maps every key genID(id, off, size) with a node id of this layer, off <= max file size + 1 and size up to
+// the largest chunk + 2 (or a whole file) back to (model file or -(id+1), off, size): a chunk cached under a wrong
+// id, offset or size is then still recorded as what it is
+func (in *c02Inst) fullKeys() map[string][3]int {
+	if in.full != nil {
+		return in.full
+	}
+	b := in.b
+	rev := map[uint32]int{}
+	for f, id := range in.ids {
+		rev[id] = f
+	}
+	maxChunk := 0
+	for _, c := range b.layout.Chunks {
+		if c[2] > maxChunk {
+			maxChunk = c[2]
+		}
+	}
+	sizes := map[int]bool{}
+	for sz := 0; sz <= maxChunk+2; sz++ {
+		sizes[sz] = true
+	}
+	for _, fs := range b.layout.Sizes {
+		sizes[fs[1]] = true
+	}
+	keys := map[string][3]int{}
+	for id := uint32(0); id <= in.maxID+3; id++ {
+		f, ok := rev[id]
+		if !ok {
+			f = -int(id) - 1 // a node that is not a regular file of the model
+		}
+		for off := 0; off <= b.maxSize+1; off++ {
+			for size := range sizes {
+				keys[c02GenID(id, int64(off), int64(size))] = [3]int{f, off, size}
+			}
+		}
+	}
+	in.full = keys
+	return keys
 }
 
 func (in *c02Inst) walk(p []string) (*node, syscall.Errno) {
